@@ -31,8 +31,13 @@ CHECKS = {
         "lock freedom and termination under weak fairness over all interleavings of 2 writers + finaliser and the whole state space for 3 writers. Every maximal 2-writer schedule of the local path, "
         "and seeded samples of the distributed and 3-writer schedules, are replayed on the REAL DelayedS3Writer/MultiPartUpload with real threads that only run between seams; TLC "
         "validates the recorded client calls and outcomes (reject) and that the threads performed exactly the model's operation sequence (drift). The as-found code (no re-check under the lock) is refuted. "
-        "The sequential sink/limits clauses are model-checked over all part orders/sizes/keyword subsets and validated on the real MPUFileSink in a scratch directory.",
-   ref="5/C18", note=TB + "fake boto3 client and fake distributed.Variable/Lock with their documented semantics (no cluster in the sandbox); seams are placed on a harness subclass of MultiPartUpload, not in the repository"),
+        "The sequential sink/limits clauses are model-checked over all part orders/sizes/keyword subsets and validated on the real MPUFileSink in a scratch directory. "
+        "The model includes the process-local lock table (_mpu_local_lock: get, atomic setdefault; first use vs lock already stored; invariant OneLocalLock). In the other direction (S3Real) a seeded "
+        "explorer lets the REAL threads choose the interleaving (uniform / sticky / switchy, 6 configurations) and TLC steps S3Init along each recorded schedule: every operation kind and blocking guard "
+        "must be the model's, the final service state must match; the property predicates are evaluated on the observed client calls. Beyond the listed clauses, UploadLife models the life cycle "
+        "of one MultiPartUpload object (initiate / write_part / finalise / cancel own, other, all / list_active, foreign and sibling-key uploads in the service) with its design invariants; every "
+        "5-call behaviour is replayed on the real class against a stateful service stand-in (conformance only: differences are drift, never a violation).",
+   ref="5/C18", note=TB + "fake boto3 client and fake distributed.Variable/Lock with their documented semantics (no cluster in the sandbox); seams are placed on a harness subclass of MultiPartUpload, a traced stand-in for the module's _state dict and the Lock factory, not in the repository"),
  "C19": dict(
    technique="TLA+ history model of the CRS / transformer caches (CrsCache) model-checked by TLC; TLC-generated histories replayed in fresh interpreters and validated by TLC; equality/hash/token/pickle laws (ValueLaws) evaluated by TLC on observations of families of real objects",
    text="CrsCache models the construction cache (key rule, string form of the first creator), object lifetimes and the identity-keyed transformer cache; TLC checks on the whole bounded "
@@ -95,8 +100,10 @@ CHECKS = {
         "to disjoint, padding/align options) and emits the cases. The real planner runs on GeoBox pairs realising exactly those rational maps; TLC evaluates on the returned ReprojectInfo: regions in bounds "
         "(source up to the next multiple of read-shrink), every needed pixel in the destination region and its source location in the source region, separated rasters give empty regions, scale = min pixel-size "
         "ratio, read-shrink bound - and compares with the model (dyadic cases). compute_axis_overlap is also driven directly with arbitrary scale/translation. For 7 pairs of different CRSs TLC checks the plan "
-        "against a table of destination-centre -> source position computed with a fresh pyproj transformer.",
-   ref="5/C03", note=TB + "cross-CRS: PROJ is an environment table, small rasters (low curvature); separation margin is padding+1 (+align) pixels"),
+        "against a table of destination-centre -> source position computed with a fresh pyproj transformer; a high-curvature family (polar LAEA <-> lon/lat over tens of degrees, 90x90 / 70x120 "
+        "sources, shifted destinations, three padding/align settings) probes the boundary-sampling path: there the 5-points-per-side envelope misses arc extrema (known findings C03-K1 / C03-K2, "
+        "identified by environment tags computed from fresh pyproj; untagged cases still alarm).",
+   ref="5/C03", note=TB + "cross-CRS: PROJ is an environment table; separation margin is padding+1 (+align) pixels; known findings C03-K1/K2 (curved edges between boundary samples)"),
  "C10": dict(
    technique="TLA+ model of paste eligibility and of paste / nearest-neighbour images (ReprojPlan) checked by TLC; TLC performs the paste from the real plan and compares it with the GDAL nearest-neighbour image logged from rio_reproject",
    text="For every same-CRS pair of the C03 domain TLC checks on the real ReprojectInfo that paste-ability is reported only for scale+translation maps with an integer scale equal on both axes and a "
